@@ -27,6 +27,37 @@ def norm_model(matrix):
     return _sq(tot)
 
 
+_EXACT = None
+
+
+def exact_cos_sin(theta):
+    """(cos, sin) of a concrete angle as exact constants when it is a multiple of pi/12 that
+    has a quadratic-surd value; otherwise symbolic atoms cos(c), sin(c) of the constant."""
+    from fractions import Fraction
+
+    global _EXACT
+    if _EXACT is None:
+        r2, r3 = SReal(tm.sqrt(tm.const(2))), SReal(tm.sqrt(tm.const(3)))
+        h = Fraction(1, 2)
+        # angle as multiple of pi/12 (0..6) -> (cos, sin)
+        _EXACT = {0: (1, 0), 2: (r3 * h, h), 3: (r2 * h, r2 * h), 4: (h, r3 * h), 6: (0, 1)}
+    q = Fraction(theta / math.pi).limit_denominator(720)
+    if abs(float(q) * math.pi - theta) <= 1e-14 * max(1.0, abs(theta)) and (q * 12).denominator == 1:
+        k = int(q * 12) % 24
+        # reduce to first quadrant
+        quad, r = divmod(k, 6)
+        if r in _EXACT or (6 - r) in _EXACT:
+            if r in _EXACT:
+                c, s = _EXACT[r]
+            else:
+                s, c = _EXACT[6 - r]
+            for _ in range(quad):
+                c, s = -s, c
+            return c, s
+    t = SReal(tm.const(float(theta)))
+    return SReal(tm.fn("cos", t.t)), SReal(tm.fn("sin", t.t))
+
+
 def rodrigues(axis, theta):
     """Rotation matrix about `axis` (normalised here, as the original does) by theta."""
     axis = np.asarray(axis, dtype=object)
@@ -35,7 +66,7 @@ def rodrigues(axis, theta):
     if isinstance(theta, SReal):
         c, s = theta.cos(), theta.sin()
     else:
-        c, s = math.cos(theta), math.sin(theta)
+        c, s = exact_cos_sin(float(theta))
     kx, ky, kz = k
     v = 1 - c
     return np.array(
@@ -48,29 +79,41 @@ def rodrigues(axis, theta):
     )
 
 
+def _concrete(v):
+    """Object arrays / constant proxies that hold only concrete numbers → plain floats."""
+    if isinstance(v, SReal):
+        return v.concrete()
+    if isinstance(v, np.ndarray) and v.dtype == object:
+        return np.array([_concrete(x) for x in v.flat], dtype=float).reshape(v.shape)
+    if isinstance(v, (list, tuple)) and any(isinstance(x, SReal) for x in v):
+        return [_concrete(x) for x in v]
+    return v
+
+
 def install_function_models(functions_module):
     real_norm = functions_module.norm
     real_rot = functions_module.rotation_matrix
 
     def norm(matrix):
-        if is_symbolic(matrix) or (isinstance(matrix, np.ndarray) and matrix.dtype == object):
+        if is_symbolic(matrix):
             USED.add("functions.norm := sqrt(sum of squares)")
-            r = norm_model(matrix)
-            if isinstance(r, SReal) and r.concrete() is not None:
-                return r.concrete()
-            return r
-        return real_norm(matrix)
+            return norm_model(matrix)
+        return real_norm(_concrete(matrix))
 
     def rotation_matrix(axis, theta):
-        if is_symbolic(axis) or is_symbolic(theta) or (isinstance(axis, np.ndarray) and axis.dtype == object):
+        if is_symbolic(axis) or is_symbolic(theta):
             USED.add("functions.rotation_matrix := Rodrigues(cos, sin)")
             return rodrigues(axis, theta)
-        return real_rot(axis, theta)
+        return real_rot(_concrete(axis), _concrete(theta))
 
     norm.__wrapped_real__ = real_norm
     rotation_matrix.__wrapped_real__ = real_rot
     functions_module.norm = norm
     functions_module.rotation_matrix = rotation_matrix
+
+
+def _num(v):
+    return tm.evalf(v.t, {}) if isinstance(v, SReal) else float(v)
 
 
 def conformance(seed=0, n=25):
@@ -79,14 +122,14 @@ def conformance(seed=0, n=25):
 
     rng = random.Random(seed)
     bad = []
-    for _ in range(n):
+    for i in range(n):
         v = [rng.uniform(-5, 5) for _ in range(3)]
         if abs(norm_model(v) - float(scipy.linalg.norm(v))) > 1e-12 * (1 + abs(norm_model(v))):
             bad.append(("norm", v))
         ax = [rng.uniform(-2, 2) for _ in range(3)]
-        th = rng.uniform(-7, 7)
+        th = rng.uniform(-7, 7) if i % 3 else rng.randint(-12, 24) * math.pi / 12
         real = scipy.linalg.expm(np.cross(np.eye(3), np.asarray(ax) / scipy.linalg.norm(ax) * th))
-        mod = rodrigues(ax, th).astype(float)
+        mod = np.array([[_num(v) for v in row] for row in rodrigues(ax, th)], dtype=float)
         if np.abs(real - mod).max() > 1e-9:
             bad.append(("rotation_matrix", ax, th))
     return bad
